@@ -1002,6 +1002,8 @@ void TasmanianSparseGrid::mergeRefinement(){
 
 void TasmanianSparseGrid::beginConstruction(){
     if (empty()) throw std::runtime_error("ERROR: cannot start construction for an empty grid.");
+    if (isGlobal() and OneDimensionalMeta::isNonNested(get<GridGlobal>()->getRule())) // the construction works with the surplus points of nested tensors
+        throw std::runtime_error("ERROR: beginConstruction() called for a global grid with non-nested rule");
     if (not using_dynamic_construction){
         if (getNumLoaded() > 0) clearRefinement();
         using_dynamic_construction = true;
